@@ -352,6 +352,38 @@ def op_declare(w, ins):
         ops.check_unique_table(w, m, ['C14'])
 
 
+def op_declare_many(w, ins):
+    """Several new variables with explicit levels, given in an order that
+    differs from the level order (what copy_vars, the constructor and the
+    pickle loader do); the levels are contiguous once all are declared."""
+    m = ins.get('m', 0)
+    g = w.mgrs[m]
+    sn = w.snapshot(m)
+    order = list(sn.order or [])
+    n = len(order)
+    dec = set(declared(w, m))
+    new = [k for k in range(w.nv) if k not in dec][:max(2, ins.get('n', 2))]
+    if len(new) < 2:
+        return 'skip'
+    import random as _rnd
+    rr = _rnd.Random(ins['style'])
+    items = [(w.names[k], n + j) for j, k in enumerate(new)]
+    want = order + [nm for nm, _ in items]
+    rr.shuffle(items)
+    if [l for _, l in items] == sorted(l for _, l in items):
+        items.reverse()
+    for nm, l in items:
+        ok, v = call(w, g.api.add_var, nm, l)
+        expect_ok(w, ok, v, 'C14', f'add_var({nm!r}, {l})')
+        if v != l:
+            w.fail('wrong_result', f'add_var({nm!r}, {l}) returned {v!r}', ['C14'])
+    after = w.snapshot(m).order
+    if after != want:
+        w.fail('wrong_order', f'after declaring {items}: order {after}, expected {want}', ['C14'])
+    w.stats['declare_many'] += 1
+    ops.check_unique_table(w, m, ['C14'])
+
+
 def op_undeclare(w, ins):
     m = ins.get('m', 0)
     g = w.mgrs[m]
@@ -710,6 +742,7 @@ for _n, _f, _p, _g in [
         ('image', op_image, 'C13', gen_image),
         ('declare', op_declare, 'C14', gen_declare),
         ('undeclare', op_undeclare, 'C14', gen_undeclare),
+        ('declare_many', op_declare_many, 'C14', lambda w, r, cfg: dict(op='declare_many', n=r.randint(2, 4), style=r.randrange(1 << 30), m=0)),
         ('sizes', op_sizes, 'C18', gen_sizes),
         ('to_nx', op_to_nx, 'C18', gen_to_nx),
         ('dump_dot', op_dump_dot, 'C18', gen_dump_dot)]:
